@@ -1217,14 +1217,17 @@ emittype(struct type *t)
 				do m = m->next;
 				while (m && m->offset + m->type->size <= off);
 			} else {
+				if (end < m->type->size)
+					end = m->type->size;
 				if (pass == 1)
 					fputs(" } ", stdout);
 				m = m->next;
 			}
 		}
 	}
-	if (t->kind == TYPESTRUCT && t->size > ALIGNUP(end, t->align))
-		printf("b %llu, ", t->size - end);
+	/* size that is not the aligned end of the last field (unnamed bit-fields) */
+	if (t->size > ALIGNUP(end, t->align))
+		printf(t->kind == TYPESTRUCT ? "b %llu, " : "{ b %llu } ", t->size - (t->kind == TYPESTRUCT ? end : 0));
 	puts("}");
 }
 
